@@ -51,8 +51,10 @@ func (i *Instance) NodeInstanceSchema(node nodes.Node) schema.NodeInstance {
 	metadataPath := "nodes." + i.nodeIDs[node]
 
 	if i.metadata.PathExists(metadataPath) {
-		if data := i.metadata.Get(metadataPath); data != nil {
-			metadata = data.(map[string]any)
+		// anything but an object stored under nodes.<id> is not node metadata
+		// (the notes section in Schema() is read the same way)
+		if data, ok := i.metadata.Get(metadataPath).(map[string]any); ok {
+			metadata = data
 		}
 	}
 
